@@ -234,11 +234,13 @@ Inductive label :=
 | LDeleteTask (r t : string) (f : failpt)
 | LPutMsg (r k : string) (m : N)
 | LGetMsg (r k : string) (pfx : bool)
-| LDelMsg (r k : string).
+| LDelMsg (r k : string)
+| LPar (a b : label).     (* two checkpoint operations (LUpdPos / LDropState) on one record issued by two goroutines: the consumers of two
+                             downstream channels, or a consumer and the event loop *)
 
 Inductive obs := OInfos (l : list tinfo) | OPoss (l : list posrec) | OMsgs (l : list N) | ORes (r : res) | ONone.
 
-Definition step (b : backend) (w : world) (l : label) : world * obs :=
+Definition step1 (b : backend) (w : world) (l : label) : world * obs :=
   match l with
   | LPutInfo r i => (put_info b w r i, ONone)
   | LGetInfo r t => (w, OInfos (get_info b w r t))
@@ -253,6 +255,14 @@ Definition step (b : backend) (w : world) (l : label) : world * obs :=
   | LPutMsg r k m => (put_msg b w r k m, ONone)
   | LGetMsg r k pfx => (w, OMsgs (get_msg b w r k pfx))
   | LDelMsg r k => (del_msg b w r k, ONone)
+  | LPar _ _ => (w, ONone)
+  end.
+(* the concurrent pair takes effect in one order or the other (the operations are serialised by the store layer's position lock):
+   [step] takes the first order, the comparison with the implementation accepts both ([C12.Check.agrees]) *)
+Definition step (b : backend) (w : world) (l : label) : world * obs :=
+  match l with
+  | LPar x y => (fst (step1 b (fst (step1 b w x)) y), ONone)
+  | _ => step1 b w l
   end.
 
 (* the full dump of the backend: every stored key with its value, in key order *)
